@@ -7,7 +7,7 @@ WT=/var/tmp/mutwt-$$
 git -C /repo worktree add -q --detach "$WT" HEAD || exit 2
 cp /repo/go.sum "$WT/go.sum"
 if ! git -C "$WT" apply "$PATCH"; then echo "PATCH-DOES-NOT-APPLY"; git -C /repo worktree remove --force "$WT"; exit 2; fi
-cd /verif
+cd "$(dirname "$(readlink -f "$0")")/.."
 if [ -n "$BUD" ]; then export VERIF_BUDGET=$BUD; fi
 SIM_REPO="$WT" VERIF_EVIDENCE_SUFFIX=.mut ./check "$PROP" "$TIER"
 rc=$?
